@@ -394,6 +394,10 @@ func runRandomHistory(rng *rand.Rand, t *vtree, w *vwriter, mode, label string, 
 
 // import every valid block once, in a fixed parent-closed order, block by block (reference run)
 func runReference(t *vtree, w *vwriter, mode, label string, batch bool) {
+	runReferenceH(t, w, mode, label, batch, false)
+}
+
+func runReferenceH(t *vtree, w *vwriter, mode, label string, batch, headers bool) {
 	n := t.newNode(w, mode, label)
 	defer n.stop()
 	done := map[*vblk]bool{}
@@ -411,10 +415,18 @@ func runReference(t *vtree, w *vwriter, mode, label string, batch bool) {
 			for _, s := range seg {
 				done[s] = true
 			}
-			n.insert(seg)
+			if headers {
+				n.insertHeaders(seg)
+			} else {
+				n.insert(seg)
+			}
 		} else {
 			done[v] = true
-			n.insert([]*vblk{v})
+			if headers {
+				n.insertHeaders([]*vblk{v})
+			} else {
+				n.insert([]*vblk{v})
+			}
 		}
 	}
 }
@@ -505,6 +517,7 @@ func runTree(rng *rand.Rand, tr *vtree, w *vwriter, nHist int, rewind bool, emit
 		mode := []string{"archive", "pruning"}[h%2]
 		runRandomHistory(rng, tr, bw, mode, fmt.Sprintf("hist-%d", h), 6+rng.Intn(10), rewind && h%3 == 2, false)
 	}
+	runReferenceH(tr, bw, "archive", "headers-ref-single", false, true)
 	runRandomHistory(rng, tr, bw, "archive", "headers", 6+rng.Intn(6), true, true)
 	runCorruptions(rng, tr, bw, []string{"archive", "pruning"}[rng.Intn(2)], "corrupt", 1)
 	emitTree(tr)
